@@ -262,6 +262,104 @@ def rwlock_rules(prog, chk, pid):
         chk.require(got == seq, P("rwlock-" + name), f.qualname, " ; ".join(seq), "%s:%d" % (f.file, f.lineno), "lock operations occur unconditionally in the documented order and wiring (readers: read switch on no_writers behind the turnstile; writers: write switch on no_readers, then exclusive no_writers)", "operations are %s" % got)
 
 
+MUTATING_CALLS = {"append", "extend", "insert", "pop", "remove", "clear", "add", "discard", "update", "setdefault", "popitem", "sort", "reverse", "appendleft", "popleft", "__setitem__", "__delitem__"}
+STATE_MODULES = ("ellipticcurve", "numbertheory", "ecdsa", "keys", "curves", "util", "der", "_compat", "rfc6979", "ecdh", "_rwlock", "_sha3", "errors")
+_STATE_SAMPLE = '''
+_last = None
+_seen = set()
+def f(a):
+    global _last
+    if a == _last:
+        return 1
+    _last = a
+    _seen.add(a)
+    return 0
+'''
+
+
+def _module_state_writes(tree: ast.Module):
+    """(function name, line, description) for every write to module-level state made from inside a function of the module"""
+    top = set()
+
+    def collect(stmts):
+        for st in stmts:
+            if isinstance(st, (ast.Assign, ast.AnnAssign, ast.AugAssign)):
+                for t in (st.targets if isinstance(st, ast.Assign) else [st.target]):
+                    for x in ast.walk(t):
+                        if isinstance(x, ast.Name):
+                            top.add(x.id)
+            elif isinstance(st, (ast.If, ast.Try, ast.With, ast.For, ast.While)):
+                for fld in ("body", "orelse", "finalbody"):
+                    collect(getattr(st, fld, []) or [])
+                for h in getattr(st, "handlers", []) or []:
+                    collect(h.body)
+
+    collect(tree.body)
+    out = []
+
+    def funcs(node, prefix=""):
+        for ch in ast.iter_child_nodes(node):
+            if isinstance(ch, (ast.FunctionDef, ast.AsyncFunctionDef)):
+                yield prefix + ch.name, ch
+                yield from funcs(ch, prefix + ch.name + ".")
+            elif isinstance(ch, ast.ClassDef):
+                yield from funcs(ch, prefix + ch.name + ".")
+            elif not isinstance(ch, ast.Lambda):
+                yield from funcs(ch, prefix)
+
+    for qn, fn in funcs(tree):
+        own = [n for n in ast.walk(fn)]
+        declared = {nm for n in own if isinstance(n, ast.Global) for nm in n.names}
+        params = {a.arg for a in fn.args.posonlyargs + fn.args.args + fn.args.kwonlyargs} | ({fn.args.vararg.arg} if fn.args.vararg else set()) | ({fn.args.kwarg.arg} if fn.args.kwarg else set())
+        local = {x.id for n in own if isinstance(n, (ast.Assign, ast.AnnAssign, ast.AugAssign, ast.For, ast.NamedExpr, ast.withitem, ast.comprehension))
+                 for t in ([n.target] if hasattr(n, "target") else getattr(n, "targets", None) or ([n.optional_vars] if getattr(n, "optional_vars", None) is not None else []))
+                 for x in ast.walk(t) if isinstance(x, ast.Name) and isinstance(x.ctx, ast.Store)} - declared
+        shared = lambda nm: (nm in top and nm not in local and nm not in params) or nm in declared
+        for n in own:
+            if isinstance(n, ast.Name) and isinstance(n.ctx, (ast.Store, ast.Del)) and n.id in declared:
+                out.append((qn, n.lineno, "assigns the module global %s" % n.id))
+            if isinstance(n, ast.Call) and isinstance(n.func, ast.Attribute) and n.func.attr in MUTATING_CALLS and isinstance(n.func.value, ast.Name) and shared(n.func.value.id):
+                out.append((qn, n.lineno, "%s.%s(...) on a module-level object" % (n.func.value.id, n.func.attr)))
+            if isinstance(n, (ast.Subscript, ast.Attribute)) and isinstance(n.ctx, (ast.Store, ast.Del)) and isinstance(n.value, ast.Name) and shared(n.value.id) and not (isinstance(n, ast.Attribute) and n.value.id in ("self", "cls")):
+                out.append((qn, n.lineno, "stores into the module-level object %s" % n.value.id))
+    # state that no function ever reads (a write-only statistic such as a test counter) cannot feed back into any result
+    read_names = set()
+    for qn, fn in funcs(tree):
+        for n in ast.walk(fn):
+            if isinstance(n, ast.Name) and isinstance(n.ctx, ast.Load):
+                read_names.add(n.id)
+    out = [r for r in out if not (r[2].startswith("assigns the module global ") and r[2].split()[-1] not in read_names)]
+    # one report per (function, description)
+    seen, uniq = set(), []
+    for r in out:
+        if (r[0], r[2]) not in seen:
+            seen.add((r[0], r[2]))
+            uniq.append(r)
+    return uniq
+
+
+def module_state_rules(prog, chk, pid):
+    """curve and point objects are shared between threads, and so is everything their methods reach: a function of the arithmetic that remembers something in a
+    module-level variable (a memo, a cache of validated points, a last-result slot) is read and written by all threads without any lock"""
+    P = lambda s: "%s.%s" % (pid, s)
+    sample = _module_state_writes(ast.parse(_STATE_SAMPLE))
+    if len(sample) != 2:
+        raise AnalysisError("the module-state detector does not recognise its own positive example (%s)" % (sample,))
+    n_mod = n_fn = 0
+    for short in STATE_MODULES:
+        q = "register_crypto_plugin.ecdsa." + short
+        if q not in prog.modules:
+            continue
+        m = prog.modules[q]
+        n_mod += 1
+        n_fn += sum(1 for n in ast.walk(m.tree) if isinstance(n, (ast.FunctionDef, ast.AsyncFunctionDef)))
+        for fn, line, what in _module_state_writes(m.tree):
+            chk.fail(P("no-module-state"), "%s.%s" % (q, fn), what, "%s:%d" % (m.relpath, line),
+                     "%s %s: the value is shared by every thread that uses the library and is read and written without a lock (two interleaved calls can pair one call's key with the other's value)" % (fn, what))
+    chk.ok(P("no-module-state"), "register_crypto_plugin.ecdsa", "%d modules, %d functions scanned for writes to module-level state" % (n_mod, n_fn), "",
+           "no function of the ECC package assigns a module global or mutates a module-level container: shared curve / point objects are the only shared state")
+
+
 def run(prog, chk, tier):
     chk.explanation = ("Structural necessary conditions of the two mechanisms the property rests on. Publication: every store to __precompute/__coords outside the constructors is a "
                        "single plain assignment of a freshly built value, no in-place mutation directly or via an alias, the table is published by the last statement that touches "
@@ -272,5 +370,6 @@ def run(prog, chk, tier):
     publication_rules(prog, chk, "C20")
     lightswitch_rules(prog, chk, "C20")
     rwlock_rules(prog, chk, "C20")
+    module_state_rules(prog, chk, "C20")
     chk.assume("CPython attribute assignment and tuple loads are atomic (GIL); threading.Lock is a correct mutex")
     chk.assume("interleaving semantics (absence of deadlock, mutual exclusion under all schedules) is not decided by this check")
